@@ -15,15 +15,26 @@ fn tmp() -> String {
     d
 }
 
-fn sources(lens: &[u64]) -> Result<Vec<TrainDataGenerator>, String> {
+/// `bads`: (source, start, length) — the lines start..start+length of that source are not JSON ("bad <src>-<i>"):
+/// the generator yields them as `Err` items, which are items like any other (C07 counts every item)
+fn is_bad(bads: &[(u64, u64, u64)], k: u64, i: u64) -> bool {
+    bads.iter().any(|&(s, st, l)| s == k && st <= i && i < st + l)
+}
+
+fn sources(lens: &[u64], bads: &[(u64, u64, u64)]) -> Result<Vec<TrainDataGenerator>, String> {
     let dir = tmp();
     let mut v = vec![];
     for (k, &n) in lens.iter().enumerate() {
-        let path = format!("{dir}/src-{k}-{n}.jsonl");
+        let tag: String = bads.iter().filter(|b| b.0 == k as u64).map(|b| format!("-{}_{}", b.1, b.2)).collect();
+        let path = format!("{dir}/src-{k}-{n}{tag}.jsonl");
         if !std::path::Path::new(&path).exists() {
             let mut f = std::fs::File::create(&path).map_err(|e| e.to_string())?;
             for i in 0..n {
-                writeln!(f, "{{\"input\": \"{k}-{i}\"}}").map_err(|e| e.to_string())?;
+                if is_bad(bads, k as u64, i) {
+                    writeln!(f, "bad {k}-{i}").map_err(|e| e.to_string())?;
+                } else {
+                    writeln!(f, "{{\"input\": \"{k}-{i}\"}}").map_err(|e| e.to_string())?;
+                }
             }
         }
         v.push(train_data_generator_from_jsonl(&path).map_err(|e| e.to_string())?);
@@ -40,9 +51,10 @@ fn strat(s: u64) -> Result<GenerationStrategy, String> {
     })
 }
 
-/// drains the generator; every item is "<src>-<k>"; returns (k, src tag) pairs
-fn drain(lens: &[u64], s: GenerationStrategy, seed: u64) -> Result<Result<Vec<(u64, u64, String)>, String>, String> {
-    let gens = sources(lens)?;
+/// drains the generator; every item is "<src>-<k>" (an `Err` item carries the line in its message); returns
+/// (k, src tag, text, is_err)
+fn drain(lens: &[u64], bads: &[(u64, u64, u64)], s: GenerationStrategy, seed: u64) -> Result<Result<Vec<(u64, u64, String, bool)>, String>, String> {
+    let gens = sources(lens, bads)?;
     let g = match MultiTrainDataGenerator::new(gens, s, Some(seed)) {
         Ok(g) => g,
         Err(e) => return Ok(Err(e.to_string())),
@@ -50,10 +62,16 @@ fn drain(lens: &[u64], s: GenerationStrategy, seed: u64) -> Result<Result<Vec<(u
     let total: u64 = lens.iter().sum();
     let mut out = vec![];
     for (item, src) in g {
-        let item = item.map_err(|e| e.to_string())?;
-        let input = item.verif_input().to_string();
+        let (input, is_err) = match item {
+            Ok(item) => (item.verif_input().to_string(), false),
+            Err(e) => {
+                let m = format!("{e:#}");
+                let line = m.split("bad ").nth(1).ok_or(format!("unexpected error item: {m}"))?;
+                (line.split(|c: char| c == ':' || c.is_whitespace()).next().unwrap_or("").to_string(), true)
+            }
+        };
         let k: u64 = input.split('-').nth(1).and_then(|x| x.parse().ok()).ok_or("bad item")?;
-        out.push((k, src as u64, input));
+        out.push((k, src as u64, input, is_err));
         if out.len() as u64 > total + 5 {
             break;
         }
@@ -61,24 +79,31 @@ fn drain(lens: &[u64], s: GenerationStrategy, seed: u64) -> Result<Result<Vec<(u
     Ok(Ok(out))
 }
 
+fn rd_bads(r: &mut Rd) -> Result<Vec<(u64, u64, u64)>, String> {
+    r.list(|r| Ok((r.nat()?, r.nat()?, r.nat()?)))
+}
+
 pub fn exec(op: &str, a: &[u64]) -> Result<Outcome, String> {
     let mut r = Rd::new(a);
-    let (s, lens, seed, tags_req) = match op {
-        "mgdet" => {
+    // mgdetb / mgwb: the same with runs of unparseable lines (Err items) in the sources
+    let (s, lens, seed, tags_req, bads) = match op {
+        "mgdet" | "mgdetb" => {
             let s = r.nat()?;
             let lens = r.nats()?;
-            (s, lens, 0, None)
+            let bads = if op == "mgdetb" { rd_bads(&mut r)? } else { vec![] };
+            (s, lens, 0, None, bads)
         }
-        "mgw" => {
+        "mgw" | "mgwb" => {
             let lens = r.nats()?;
             let seed = r.nat()?;
             let tags = r.nats()?;
-            (2, lens, seed, Some(tags))
+            let bads = if op == "mgwb" { rd_bads(&mut r)? } else { vec![] };
+            (2, lens, seed, Some(tags), bads)
         }
         _ => return Err(format!("unknown op {op}")),
     };
     r.end()?;
-    let res = drain(&lens, strat(s)?, seed)?;
+    let res = drain(&lens, &bads, strat(s)?, seed)?;
     let out = match res {
         Ok(o) => o,
         Err(_) => {
@@ -94,7 +119,7 @@ pub fn exec(op: &str, a: &[u64]) -> Result<Outcome, String> {
         Outcome::new("accept".to_string())
     } else {
         let mut v = vec![out.len() as u64];
-        for (k, src, _) in &out {
+        for (k, src, _, _) in &out {
             v.push(*k);
             v.push(*src);
         }
@@ -104,8 +129,9 @@ pub fn exec(op: &str, a: &[u64]) -> Result<Outcome, String> {
     let total: u64 = lens.iter().sum();
     o.check(out.len() as u64 == total, "number of yielded items != total number of items");
     let mut seen = vec![0u64; lens.len()];
-    for (k, src, input) in &out {
+    for (k, src, input, is_err) in &out {
         let sidx = *src as usize;
+        o.check(*is_err == is_bad(&bads, *src, *k), "an unparseable line is not yielded as an error item (or a valid line is)");
         o.check(sidx < lens.len() && *input == format!("{src}-{k}"), "item tagged with a wrong source index");
         if sidx < lens.len() {
             o.check(*k == seen[sidx], "per-source order violated / item repeated");
@@ -129,7 +155,7 @@ pub fn exec(op: &str, a: &[u64]) -> Result<Outcome, String> {
             o.check(out.iter().map(|x| (x.0, x.1)).collect::<Vec<_>>() == want, "interleaved is not round robin over the sources that still have items");
         }
         _ => {
-            let again = drain(&lens, strat(s)?, seed)?.map_err(|e| e)?;
+            let again = drain(&lens, &bads, strat(s)?, seed)?.map_err(|e| e)?;
             o.check(again == out, "weighted is not reproducible from the seed");
         }
     }
@@ -137,19 +163,35 @@ pub fn exec(op: &str, a: &[u64]) -> Result<Outcome, String> {
 }
 
 fn emit(ctx: &mut Ctx, s: u64, lens: &[u64], seed: u64) {
+    emit_b(ctx, s, lens, seed, &[])
+}
+
+fn emit_b(ctx: &mut Ctx, s: u64, lens: &[u64], seed: u64, bads: &[(u64, u64, u64)]) {
+    let enc_bads = |v: &mut Vec<u64>| {
+        v.push(bads.len() as u64);
+        for b in bads {
+            v.extend([b.0, b.1, b.2]);
+        }
+    };
     if s < 2 {
         let mut v = vec![s];
         enc_nats(&mut v, lens.iter().copied());
-        ctx.case("mgdet", &v);
+        if !bads.is_empty() {
+            enc_bads(&mut v);
+        }
+        ctx.case(if bads.is_empty() { "mgdet" } else { "mgdetb" }, &v);
     } else {
         let mut v = vec![];
         enc_nats(&mut v, lens.iter().copied());
         v.push(seed);
-        match drain(lens, GenerationStrategy::Weighted, seed) {
+        match drain(lens, bads, GenerationStrategy::Weighted, seed) {
             Ok(Ok(out)) => enc_nats(&mut v, out.iter().map(|x| x.1)),
             _ => v.push(0),
         }
-        ctx.case("mgw", &v);
+        if !bads.is_empty() {
+            enc_bads(&mut v);
+        }
+        ctx.case(if bads.is_empty() { "mgw" } else { "mgwb" }, &v);
     }
 }
 
@@ -192,7 +234,26 @@ pub fn run_c07(ctx: &mut Ctx) {
         let lens: Vec<u64> = (0..k).map(|_| if ctx.rng.random_bool(0.15) { 0 } else { ctx.rng.random_range(1..=if i % 7 == 0 { 30 } else { 6 }) }).collect();
         let s = ctx.rng.random_range(0..3);
         let seed = crate::gen::seed(&mut ctx.rng);
-        emit(ctx, s, &lens, seed);
+        if i % 4 == 1 {
+            // runs of unparseable lines (Err items are items): short and long runs (1..40 lines), at the start, in
+            // the middle and at the end of a source, in one or several sources
+            let lens: Vec<u64> = lens.iter().map(|&l| if l > 0 && ctx.rng.random_bool(0.5) { l + ctx.rng.random_range(0..40) } else { l }).collect();
+            let mut bads = vec![];
+            for (k, &l) in lens.iter().enumerate() {
+                if l > 0 && (bads.is_empty() || ctx.rng.random_bool(0.3)) && bads.len() < 4 {
+                    let run = [1u64, 2, 7, 8, 9, 16, 33, 40][ctx.rng.random_range(0..8)].min(l);
+                    let start = match ctx.rng.random_range(0..3) {
+                        0 => 0,
+                        1 => l - run,
+                        _ => ctx.rng.random_range(0..=l - run),
+                    };
+                    bads.push((k as u64, start, run));
+                }
+            }
+            emit_b(ctx, s, &lens, seed, &bads);
+        } else {
+            emit(ctx, s, &lens, seed);
+        }
     }
     std::fs::remove_dir_all(tmp()).ok();
 }
